@@ -123,6 +123,10 @@ func mergeConfigDict(opts *options, to, from *Config) Error {
 			return err
 		}
 
+		if sameSub(merged, old) {
+			// merged in place into the existing sub-config: keep it, handles to it stay live
+			continue
+		}
 		to.fields.set(k, merged.cpy(ctx))
 	}
 
@@ -195,6 +199,9 @@ func mergeConfigMergeArr(opts *options, to, from *Config) Error {
 		if err != nil {
 			return err
 		}
+		if sameSub(merged, old) {
+			continue
+		}
 		to.fields.setAt(i, parent, merged.cpy(ctx))
 	}
 
@@ -226,6 +233,16 @@ func mergeConfigPrependArr(opts *options, to, from *Config) Error {
 func mergeConfigAppendArr(opts *options, to, from *Config) Error {
 	to.fields.append(cfgSub{to}, from.fields.array())
 	return nil
+}
+
+// sameSub reports whether a and b are the same sub-configuration object.
+func sameSub(a, b value) bool {
+	sa, ok := a.(cfgSub)
+	if !ok {
+		return false
+	}
+	sb, ok := b.(cfgSub)
+	return ok && sa.c == sb.c
 }
 
 func mergeValues(opts *options, old, v value) (value, Error) {
